@@ -79,8 +79,25 @@ class C05(CacheProp):
         st = {}          # hash -> {"del": op index of the returned Del, "conf", "wait": issued-after wait ids, "ok": bool}
         pend_del = {}    # op id of a blocked Del -> (hash, conf)
         pend_wait = {}   # op id of a blocked Wait -> set of hashes whose Del had returned when it was issued
+        accepted = {}    # hash -> [(conflict, value)] of the Sets that returned true, since the last Clear
+        exited = set()
+        collide = "profile:collide" in case.tags      # colliding keys: see the known finding of C04
+
+        def released(h, n):
+            # Del(k) has returned and a Wait issued after it has returned: every value accepted for k before is out
+            for cf, v in accepted.pop(h, []):
+                if v not in exited and not collide:
+                    fails.append("op %d: value %d (Set of key %s returned true) has not been passed to OnExit although Del(%s) "
+                                 "and a later Wait have returned" % (n, v, h, h))
         for s in tr.steps:
             op, res, n = s["op"], s["res"], s["n"]
+            for cb in s["cbs"]:
+                if cb.startswith("exit:"):
+                    exited.add(int(cb[5:]))
+            if op[0] == "set" and res[:1] == ["true"]:
+                accepted.setdefault(op[1], []).append((op[2], int(op[3])))
+            if op[0] in ("sweeprw", "closeset", "clear", "close"):
+                accepted.clear()
             if op[0] in ("set", "sweeprw", "closeset"):
                 for h in ([op[1]] if op[0] != "sweeprw" else [op[1], op[3]]):
                     st.pop(h, None)
@@ -101,6 +118,7 @@ class C05(CacheProp):
                 else:
                     for h in hs:
                         st[h]["ok"] = True
+                        released(h, n)
             for d in s["done"]:
                 if d in pend_del:
                     h, cf = pend_del.pop(d)
@@ -109,6 +127,7 @@ class C05(CacheProp):
                     for h in pend_wait.pop(d):
                         if h in st:
                             st[h]["ok"] = True
+                            released(h, n)
             if op[0] == "get" and op[1] in st and st[op[1]]["ok"] and st[op[1]]["conf"] == op[2]:
                 if res[1:2] == ["true"]:
                     fails.append("op %d: Get(%s) returned value %s although Del(%s) and a later Wait had returned and no "
